@@ -4015,11 +4015,12 @@ class IfThenElse(Construct):
     def _emitbuild(self, code):
         return f"(({self.thensubcon._compilebuild(code)}) if ({repr(self.condfunc)}) else ({self.elsesubcon._compilebuild(code)}))"
 
-    def _emitseq(self, ksy, bitwise):
-        return [
-        dict(id="thenvalue", type=self.thensubcon._compileprimitivetype(ksy, bitwise), if_=repr(self.condfunc).replace("this.","")),
-        dict(id="elsesubcon", type=self.elsesubcon._compileprimitivetype(ksy, bitwise), if_=repr(~self.condfunc).replace("this.","")),
-        ]
+    def _emitfulltype(self, ksy, bitwise):
+        # one field whose type is switched on the condition: the condition is read in the scope the field is in
+        return dict(type={
+            "switch-on": repr(self.condfunc).replace("this.",""),
+            "cases": {True: self.thensubcon._compileprimitivetype(ksy, bitwise), False: self.elsesubcon._compileprimitivetype(ksy, bitwise)},
+        })
 
 
 class Switch(Construct):
